@@ -200,8 +200,13 @@ _jpeg_crop_scanline(j_decompress_ptr cinfo, JDIMENSION *xoffset,
   if (cinfo->master->lossless)
     ERREXIT(cinfo, JERR_NOTIMPL);
 
+  /* In DSTATE_BUFIMAGE (between output passes), output_scanline still holds
+   * the value that it had at the end of the previous output pass or image, so
+   * it is only meaningful in DSTATE_SCANNING.
+   */
   if ((cinfo->global_state != DSTATE_SCANNING &&
-       cinfo->global_state != DSTATE_BUFIMAGE) || cinfo->output_scanline != 0)
+       cinfo->global_state != DSTATE_BUFIMAGE) ||
+      (cinfo->global_state == DSTATE_SCANNING && cinfo->output_scanline != 0))
     ERREXIT1(cinfo, JERR_BAD_STATE, cinfo->global_state);
 
   if (!xoffset || !width)
